@@ -14,6 +14,14 @@ SEEDS = {
     "C08": ("C08", "rank size with >= 2 distinct prime factors, 3-level hierarchy, >= 1000 partial tile shapes, tight buffers", ["C08"]),
     "C11": ("C11", ">= 3 varying columns, >= 16 mutually non-dominated rows, a row dominated only by the row in window slot 15/31/…", ["C11"]),
     "C13": ("C13", "fused join where the second Einsum holds a tile above the split and the first Einsum's table has the same reservation column with a different value; binding capacity", ["C13", "C03", "C04"]),
+    "C07": ("C07", "compute-bound latency with an integer throughput that does not divide the operation count (an exact symengine Rational reaches the symengine->sympy conversion)", ["C07"]),
+    "C10": ("C10", "imperfect factorisation with an inner size > 1 and an odd outer/inner ratio >= 3", ["C10"]),
+    "C12": ("C12", "a tolerance > 0 and two values on both sides of 1.0 inside the widened log-scale bucket 0 but more than (1+t) apart", ["C12"]),
+    "C15": ("C15", "a joined result that references >= 2 distinct pmapping rows of the same Einsum (multi-row Pareto front)", ["C15", "C04"]),
+    "C21": ("C21", "a definition that mentions one sibling twice and another sibling (sorted after it / still waiting) once", ["C21"]),
+    "C25": ("C25", "a nested plain Hierarchical with non-compute leaves on the path before the target compute and not containing it", ["C25"]),
+    "C27": ("C27", ">= 3 chained calls where the second call calculates something the first did not and the third re-requests a quantity of the first (e.g. calc(area=False), calc(), calc())", ["C27"]),
+    "C31": ("C31", "a Toll with direction 'up' on an output tensor below the backing store, child with skip_initial_output_write (default)", ["C31"]),
     "C32": ("C32", "dict input, n_jobs >= 2, >= 2 jobs, at least one job completing before an earlier-submitted one", ["C32"]),
 }
 
